@@ -93,8 +93,13 @@ def compare(ctx, f, t, y, o, tag):
     rel = 1e-11 + 1e-14 * worst
     if ok:
         sN = max(float(np.max(np.abs(dNs))) if len(dNs) else 0.0, 1e-300)
-        for a, b in zip(dNs, mdNs):
-            ok &= close(float(a), b, max(abs(float(a)), sN * 1e-3), rel=rel) and ((a == 0) == (b == 0) or abs(a) < 1e-300)
+        Ns_ = mb.unpack_values(y)[0]
+        Ntot = max(float(np.sum(np.abs(Ns_)) + sum(float(np.sum(np.abs(p))) for p in mb.unpack_values(y)[2:5])), 1e-300)
+        for a, b, nj in zip(dNs, mdNs, Ns_):
+            # dNs_j = B·Ns_j·(1 − md^-1/2 P15/P1): the bracket cancels when the bin's mean mass is near md, so the natural
+            # scale of the entry is |B|·Ns_j ≳ |rate|·Ns_j/N_total
+            sc_j = max(abs(float(a)), sN * 1e-3, abs(f.esc_rate) * abs(float(nj)) / Ntot)
+            ok &= close(float(a), b, sc_j, rel=rel) and ((a == 0) == (b == 0) or abs(a) < 1e-300)
         for a, b in zip(dal, mdal):
             ok &= close(float(a), b, rel=rel) and ((a == 0) == (b == 0))
         for i in range(len(rN)):
